@@ -226,7 +226,7 @@ def _judge(ctx, ad, cfg, env, cases, drv, keys, kind_prefix):
 
 
 def _c05(ctx, ad, cfg, env, runner, rng, drv, mult):
-    cases = _transition_cases(ctx, ad, cfg, env, runner, rng, budget(ctx, 3, 12) * mult, budget(ctx, 6, 40) * mult, True, drv)
+    cases = _transition_cases(ctx, ad, cfg, env, runner, rng, budget(ctx, 5, 15) * mult, budget(ctx, 16, 80) * mult, True, drv)
     _compare_step(ctx, ad, cfg, env, cases, drv, "illegal action")
     if "judge" in ad.ops:
         _judge(ctx, ad, cfg, env, cases, drv, ["illegal_ok"], "illegal")
@@ -281,7 +281,7 @@ def _c06(ctx, ad, cfg, env, runner, rng, drv, mult):
 def _c07(ctx, ad, cfg, env, runner, rng, drv, mult):
     _state_preds(ctx, ad, cfg, env, runner, rng, drv, None, budget(ctx, 6, 40) * mult, ["consistent"], "consistent")
     if "judge" in ad.ops:
-        cases = [(r, r["action"], r["next"], r["ts"]) for r in rollouts(ad, env, runner, rng, budget(ctx, 3, 20) * mult)
+        cases = [(r, r["action"], r["next"], r["ts"]) for r in rollouts(ad, env, runner, rng, budget(ctx, 5, 20) * mult)
                  if not r["reset"] and int(r["ts"].step_type) != 2]
         _judge(ctx, ad, cfg, env, cases, drv, ["conserved"], "conserved")
 
